@@ -62,22 +62,13 @@ func checkC06(p *Prog, r *Report) {
 	}
 	if sfl != nil && len(sfl.Params) >= 2 {
 		ldParam := sfl.Params[1]
-		isRootCmp := func(v ssa.Value) bool {
-			b, ok := v.(*ssa.BinOp)
-			if !ok || b.Op != token.EQL {
-				return false
-			}
-			s, isC := constStr(b.Y)
-			// `local` at the comparison is the parameter itself (fresh copy per iteration)
-			return isC && s == "/" && (b.X == ssa.Value(ldParam) || derivesFrom(b.X, ldParam))
-		}
 		n := 0
 		for _, st := range storesToField(p, localDirF) {
 			n++
 			ok := st.Parent() == sfl
 			why := "store outside SendFileList"
 			if ok {
-				ok, why = localDirValueOK(st.Val, ldParam, isRootCmp, map[ssa.Value]bool{})
+				ok, why = localDirValueOK(st.Val, ldParam, map[ssa.Value]bool{})
 			}
 			r.Cond(ok, "C06/ROOT-ARG", funcKey(st.Parent())+" store scopedWalker.localDir", p.Pos(st.Pos()), why)
 		}
@@ -242,20 +233,79 @@ func checkC06(p *Prog, r *Report) {
 
 // localDirValueOK: v is the localDir parameter, or a phi whose non-parameter
 // edges all arrive from blocks where localDir=="/" is known true.
-func localDirValueOK(v ssa.Value, param *ssa.Parameter, isRootCmp func(ssa.Value) bool, seen map[ssa.Value]bool) (bool, string) {
+// isRootFact: the fact says param == "/" (the implicit module).
+func isRootFact(f Fact, param *ssa.Parameter) bool {
+	b, ok := f.Cond.(*ssa.BinOp)
+	if !ok || !((b.Op == token.EQL && f.Val) || (b.Op == token.NEQ && !f.Val)) {
+		return false
+	}
+	s, isC := constStr(b.Y)
+	// `local` at the comparison is the parameter itself (fresh copy per iteration)
+	return isC && s == "/" && (b.X == ssa.Value(param) || derivesFrom(b.X, param))
+}
+
+func underRootFact(b *ssa.BasicBlock, param *ssa.Parameter) bool {
+	for _, f := range FactsAtBlock(b) {
+		if isRootFact(f, param) {
+			return true
+		}
+	}
+	return false
+}
+
+// localDirValueOK: v is param itself, or differs from it only on paths where
+// param == "/" holds; v may be the result of a same-package helper that gets
+// param as an argument (checked on each of the helper's returns).
+func localDirValueOK(v ssa.Value, param *ssa.Parameter, seen map[ssa.Value]bool) (bool, string) {
 	if v == ssa.Value(param) || seen[v] {
 		return true, ""
 	}
 	seen[v] = true
+	if call, idx := extractOf(v); call != nil || isCallValue(v) {
+		if call == nil {
+			call, idx = v.(*ssa.Call), 0
+		}
+		h := call.Common().StaticCallee()
+		if h != nil && h.Blocks != nil && pkgPathOfFunc(h) == pkgPathOfFunc(param.Parent()) && h != param.Parent() {
+			var hp *ssa.Parameter
+			for i, a := range call.Common().Args {
+				if a == ssa.Value(param) && i < len(h.Params) {
+					hp = h.Params[i]
+				}
+			}
+			if hp == nil {
+				return false, "helper " + funcKey(h) + " computes localDir without the module path"
+			}
+			for _, b := range h.Blocks {
+				ret, ok := lastInstr(b).(*ssa.Return)
+				if !ok {
+					continue
+				}
+				rr := retResults(ret)
+				if idx >= len(rr) {
+					return false, "helper result index"
+				}
+				if rr[idx] == ssa.Value(hp) {
+					continue
+				}
+				if _, isPhi := rr[idx].(*ssa.Phi); isPhi {
+					if ok, why := localDirValueOK(rr[idx], hp, seen); !ok {
+						return false, why
+					}
+					continue
+				}
+				if !underRootFact(b, hp) {
+					return false, "helper " + funcKey(h) + " returns a request-derived localDir outside the localDir==\"/\" branch"
+				}
+			}
+			return true, ""
+		}
+	}
 	phi, ok := v.(*ssa.Phi)
 	if !ok {
 		// a non-phi, non-param value: its defining block must be under localDir=="/"
-		if in, isIn := v.(ssa.Instruction); isIn {
-			for _, f := range FactsAtBlock(in.Block()) {
-				if f.Val && isRootCmp(f.Cond) {
-					return true, ""
-				}
-			}
+		if in, isIn := v.(ssa.Instruction); isIn && in.Parent() == param.Parent() && underRootFact(in.Block(), param) {
+			return true, ""
 		}
 		return false, "localDir receives a value other than the module path outside the localDir==\"/\" branch"
 	}
@@ -264,21 +314,16 @@ func localDirValueOK(v ssa.Value, param *ssa.Parameter, isRootCmp func(ssa.Value
 			continue
 		}
 		if _, isPhi := e.(*ssa.Phi); isPhi {
-			if ok, why := localDirValueOK(e, param, isRootCmp, seen); !ok {
+			if ok, why := localDirValueOK(e, param, seen); !ok {
 				return false, why
 			}
 			continue
 		}
-		pred := phi.Block().Preds[i]
-		good := false
-		for _, f := range FactsAtBlock(pred) {
-			if f.Val && isRootCmp(f.Cond) {
-				good = true
-			}
-		}
-		if !good {
+		if !underRootFact(phi.Block().Preds[i], param) {
 			return false, "a request-derived value reaches localDir without the localDir==\"/\" guard"
 		}
 	}
 	return true, ""
 }
+
+func isCallValue(v ssa.Value) bool { _, ok := v.(*ssa.Call); return ok }
